@@ -154,8 +154,9 @@ REGISTRY = {
                       'upward unfolding, root, laminar), each conjunct re-established by register and by the completion of unregister '
                       'for every forest satisfying the quantifier\'s preconditions; exactly one registered/unregistered; queued events '
                       'move to the new root. Induction over histories is the standard invariant argument.',
-        'level_note': 'trusted: lemma G8 for the recursive _updateRoot; termination of the recursion (from acyclicity) not proved; '
-                      'handlers as callbacks; one thread.',
+        'level_note': 'lemma G8 (used by the recursive _updateRoot) is machine-checked in lemmas/Forest.lean from the proved conjuncts; '
+                      'assumed: the forest is finite (a rank decreasing towards the parent exists), which also gives termination of the '
+                      'recursion; handlers as callbacks; one thread.',
         'explanation': 'forest contracts discharged by z3 (quantified, uninterpreted reference sort)',
     },
     'C01': {
@@ -165,8 +166,9 @@ REGISTRY = {
                       'recursive contract with loop invariants; addHandler/removeHandler change exactly the tables of the method and '
                       'mark the root cache stale; every operation that changes the tree or creates a root marks the affected caches '
                       'stale; the dispatcher clears a stale cache before lookup and builds the list from getHandlers, each handler once.',
-        'level_note': 'trusted: forest lemma G8 and termination of the recursion; sorted(); multi-channel duplicates outside the '
-                      'statement; cache coherence across histories is the invariant argument of DESIGN 3.1 over these per-operation duties.',
+        'level_note': 'forest lemma G8 is machine-checked (lemmas/Forest.lean) from the Forest conjuncts; assumed: finiteness of the forest '
+                      '(rank), hence termination of the recursion; sorted(); multi-channel duplicates outside the statement; cache coherence '
+                      'across histories is the invariant argument of DESIGN 3.1 over these per-operation duties.',
         'explanation': 'handler-set contracts discharged by z3 (quantified)',
     },
     'C17': {
